@@ -74,6 +74,24 @@ def order_is_documented(g):
             list(pycaption.SUPPORTED_READERS) == DOCUMENTED_ORDER, {"order": [r.__name__ for r in pycaption.SUPPORTED_READERS]})
 
 
+def detection_has_no_memory(g):
+    """frame: detect_format and the detect methods (with what they can reach, by name) keep no module-level or
+    class-level state - no global statement, no mutated module / class container, no memoising decorator -, so
+    the answer for a string cannot depend on the strings detected before"""
+    import importlib
+    from pyvc import frames
+    mods = ["pycaption", "pycaption.base", "pycaption.srt", "pycaption.webvtt", "pycaption.microdvd", "pycaption.sami",
+            "pycaption.dfxp.base", "pycaption.scc"]
+    trees = {m: frames.module_ast_of(importlib.import_module(m)) for m in mods}
+    entries = [(None, "detect_format")] + [(R.__name__, "detect") for R in DOCUMENTED_ORDER]
+    scoped, dropped = frames.reachable_trees(trees, entries)
+    g.check("scope: detect_format is reachable", any(
+        isinstance(st, __import__("ast").FunctionDef) and st.name == "detect_format" and not isinstance(st.body[0], __import__("ast").Pass)
+        for st in scoped["pycaption"].body), None)
+    for m in mods:
+        frames.no_global_mutation(scoped[m], g, m)
+
+
 # ------------------------------------------------------------------------------------ bounded part
 
 def reference_detect(s):
@@ -93,7 +111,7 @@ def sample_sets(rng):
     for i in range(14):
         caps = []
         # integer microseconds, and the fractional times the SCC reader and adjust_caption_timing produce
-        t = 10 ** 6 if i % 3 else 1001000 * 10 / 30 * 3
+        t = (10 ** 6 if i % 3 else 1001000 * 10 / 30 * 3) if i % 5 != 4 else (0 if i == 4 else 999)       # (also a first cue at time zero)
         for j in range(rng.choice([1, 2, 3])):
             nodes = [T(texts[(i + j) % len(texts)] if i < len(texts) else rng.choice(texts))]
             if rng.random() < 0.5:
@@ -152,9 +170,31 @@ def bounded(ctx, b):
                 b.guard(("trunc", Wr.__name__, pre), two, nontrivial=False)
 
 
+def bounded_sequences(ctx, b):
+    """the answer for a string does not depend on what was detected before: every ordered pair (document of
+    one format, string accepted by more than one reader or by none) in one process"""
+    from props import samples
+    firsts = [docs[0] for docs in samples.all_docs().values()] + ["no format at all"]
+    seconds = ["1\n-->WEBVTT", "WEBVTT\n\n1\n00:01.000 --> 00:02.000\nx", "1\n00:00:01,000 --> 00:00:02,000\nsee WEBVTT\n",
+               "Scenarist_SCC V1.0\n\n00:00:01:00\t9420 </tt>", "{1}{2}</tt>", "{1}{2}<sami>", "<sami>\n1\n-->", "{1}{2}WEBVTT", "{1}{2}x\n1\n-->",
+               "Scenarist_SCC V1.0 <SAMI>", "Scenarist_SCC V1.0\n1\n-->", "<SAMI></tt>", "nothing", "1\n-->"]
+    for a in firsts:
+        for s in seconds:
+            def one(a=a, s=s):
+                detect_format(a)
+                got = detect_format(s)
+                want = reference_detect(s)
+                return got is want, {"detected_before": a[:60], "string": s, "got": repr(got), "expected": repr(want)}
+            b.guard(("seq", a[:40], s), one, sample={"detected_before": a[:60], "string": s})
+
+
 def run(ctx):
     P = ctx.prove
     ctx.ground("SUPPORTED_READERS/order", order_is_documented)
+    ctx.frame("detection_has_no_memory", detection_has_no_memory)
+    ctx.bounded("sequences", "every ordered pair (a document of each format or of none detected first, then one of 14 strings "
+                "that several readers or none accept): the second answer is the first accepting reader of the documented "
+                "order whatever was detected before", lambda b: bounded_sequences(ctx, b))
     for R in DOCUMENTED_ORDER:
         P(f"{R.__name__}.detect/total", detect_each_total(R), functions=[R.detect], setup_interp=setup)
     P("detect_format/non_empty", detect_total, functions=[detect_format], setup_interp=setup)
